@@ -33,11 +33,11 @@ func C05(r *core.Report) {
 			checkReentrant(r, "C05.R7", f, "lookups")
 		}
 	}
-	r.Floor("C05.R1", 6)
-	r.Floor("C05.R2", 5)
+	r.Floor("C05.R1", 5)
+	r.Floor("C05.R2", 4)
 	r.Floor("C05.R3", 1)
 	r.Floor("C05.R4", 2)
-	r.Floor("C05.R5", 2)
+	r.Floor("C05.R5", 1)
 	r.Floor("C05.R6", 2)
 	r.Floor("C05.R7", 4)
 	c05PutAlwaysStores(r)
